@@ -333,9 +333,10 @@ def run_fsm(ctx, chk, tables, prop='C03', focus=None):
                 nxt, evs, care = ref_step(rstate, c, utf8)
                 if focus == 'osc' and rname not in (OC, OS, OE) and not (nxt in (OC, OS, OE)):
                     care_here = False
-                elif focus == 'modes':
+                elif focus in ('modes', 'sgr'):
                     care_here = False
-                elif focus == 'charset' and not (rname == ECS or (isinstance(nxt, tuple) and nxt[0] == ECS) or (rname == G and c in '\x0e\x0f')):
+                elif focus == 'charset' and not (rname == ECS or (isinstance(nxt, tuple) and nxt[0] == ECS) or c in '\x0e\x0f'):
+                    # (SO / SI are followed in every state: inside a sequence they must not reach the screen either)
                     care_here = False
                 else:
                     care_here = care
@@ -360,11 +361,28 @@ def run_fsm(ctx, chk, tables, prop='C03', focus=None):
                 chk.instance('R-FSM', short(CLOSURE), '%s --%r%s-->' % (_sname(rstate), c, '' if utf8 else ' (8-bit)'), ok, detail=why,
                              span=F.body.blocks[site]['term']['span'],
                              what='in state %s on %r (%s mode): %s' % (_sname(rstate), c, 'UTF-8' if utf8 else '8-bit', why))
+    if focus == 'charset':
+        # in UTF-8 mode no state of the recogniser lets SO / SI through to the screen (where the grammar
+        # leaves the rest of the reaction open, this much is still required)
+        nneg = 0
+        for (rstate, site) in sorted(seen, key=lambda p: (_sname(p[0]), p[1])):
+            if isinstance(rstate, tuple):
+                continue       # data-carrying states are entered with a prefix; covered from their predecessor
+            for c in '\x0e\x0f':
+                outs = F.step(site, [c], utf8=True)
+                leaked = sorted({call[0] for (nsite, oevs, yd) in outs for alt in expand_events(oevs, tables) for call in alt
+                                 if call[0] in ('shift_in', 'shift_out', 'define_charset')})
+                nneg += 1
+                chk.instance('R-FSM', short(CLOSURE), '%s --%r--> no shift in UTF-8 mode' % (_sname(rstate), c), not leaked,
+                             detail='listener calls %s' % leaked if leaked else '%d outcomes, none reaches shift_in / shift_out' % len(outs),
+                             span=F.body.blocks[site]['term']['span'],
+                             what='in state %s, UTF-8 mode, %r reaches the screen as %s (documented: shifts are ignored in UTF-8 mode)' % (_sname(rstate), c, leaked))
+        chk.floor('UTF-8 shift suppression checked per state', nneg, 10)
     if focus is None:
         data_path(F, chk, seen, grounds[0])
-    elif focus == 'modes':
-        data_path(F, chk, seen, grounds[0], only_modes=True)
-    chk.floor('automaton transitions compared', ntrans, 300 if focus is None else (0 if focus == 'modes' else 20))
+    elif focus in ('modes', 'sgr'):
+        data_path(F, chk, seen, grounds[0], only=focus)
+    chk.floor('automaton transitions compared', ntrans, 300 if focus is None else (0 if focus in ('modes', 'sgr') else 20))
     chk.cov['reference_states_reached'] = sorted({_sname(r) for r, s in seen})
     chk.cov['state_site_pairs'] = len(seen)
     F.pairs = seen
@@ -372,7 +390,7 @@ def run_fsm(ctx, chk, tables, prop='C03', focus=None):
     return F
 
 
-def data_path(F, chk, seen, ground, only_modes=False):
+def data_path(F, chk, seen, ground, only_modes=False, only=None):
     """data-path clauses of the CSI collector, from the generalised ESC / CSI states:
     `;` pushes exactly one parameter and dispatches nothing; a digit pushes nothing; a final pushes
     exactly one parameter before its single dispatch; `?` makes the dispatch private; a fresh CSI is
@@ -380,6 +398,9 @@ def data_path(F, chk, seen, ground, only_modes=False):
     esc_sites = sorted({s for (r, s) in seen if r == E})
     csi_sites = sorted({s for (r, s) in seen if r == C})
     name = short(CLOSURE)
+    if only_modes:
+        only = 'modes'
+    only_modes = only is not None
 
     def pushes(evs):
         return [e for e in evs if e[0] == 'push']
@@ -423,8 +444,21 @@ def data_path(F, chk, seen, ground, only_modes=False):
                     (['[', '4', ';', '2', '0', 'l'], ('csi_dispatch', 'l', (4, 20), False), 'RM list is not private'),
                     (['[', '?', '2', '5', 'l'], ('csi_dispatch', 'l', (25,), True), 'private parameter'),
                     (['[', '?', '6', 'h'], ('csi_dispatch', 'h', (6,), True), 'private SM'))
+    sgr_scripts = ((['[', 'm'], ('csi_dispatch', 'm', (0,), False), 'SGR without parameters is one empty parameter'),
+                   (['[', '1', ';', '3', '2', 'm'], ('csi_dispatch', 'm', (1, 32), False), 'SGR list in order'),
+                   (['[', '3', '8', ';', '5', ';', '1', '9', '6', 'm'], ('csi_dispatch', 'm', (38, 5, 196), False), 'extended colour parameters reach the listener in order'),
+                   (['[', '0', ';', ';', '7', 'm'], ('csi_dispatch', 'm', (0, 0, 7), False), 'empty parameter inside an SGR list is 0'))
+    # nothing of an abandoned sequence survives into the next one (its parameters, its digits, its
+    # private marker): the second sequence of each script must dispatch exactly its own parameters
+    final = {'modes': ['2', '0', 'h'], 'sgr': ['3', '2', 'm']}.get(only, ['3', '2', 'm'])
+    fwant = {'modes': ('csi_dispatch', 'h', (20,), False), 'sgr': ('csi_dispatch', 'm', (32,), False)}.get(only, ('csi_dispatch', 'm', (32,), False))
+    after_scripts = tuple((['['] + pre + ['\x1b', '['] + final, fwant, 'fresh sequence after %s' % what_)
+                          for (pre, what_) in ((['4', ';', '7', ';', '3', '\x18'], 'a CSI cancelled by CAN'),
+                                               (['?', '1', ';', '5', '\x1a'], 'a private CSI cancelled by SUB'),
+                                               (['1', ';', '1', ';', '5', '$', 'r'], 'a skipped `$` sequence'),
+                                               (['4', ';', '7', 'H'], 'a complete sequence')))
     for es in esc_sites:
-        for (script, want, what) in (mode_scripts if only_modes else (
+        for (script, want, what) in ((mode_scripts + after_scripts) if only == 'modes' else (sgr_scripts + after_scripts) if only == 'sgr' else after_scripts + (
                                      (['[', 'h'], ('csi_dispatch', 'h', (0,), False), 'fresh CSI: empty parameter is 0, not private'),
                                      (['[', '5', 'h'], ('csi_dispatch', 'h', (5,), False), 'one digit'),
                                      (['[', '1', '2', ';', '3', 'H'], ('csi_dispatch', 'H', (12, 3), False), 'decimal accumulation, two parameters'),
@@ -435,6 +469,8 @@ def data_path(F, chk, seen, ground, only_modes=False):
                                      (['[', '1', ';', 'm'], ('csi_dispatch', 'm', (1, 0), False), 'trailing empty parameter'))):
             outs = F.step(es, script)
             got = [[e for e in o[1] if e[0] == 'csi_dispatch'] for o in outs]
+            if script.count('[') > 1:
+                got = [g[-1:] for g in got]          # the dispatch of the last sequence of the script
             ok = bool(outs) and all(g == [want] for g in got) and all(o[0] == F.sites.index(ground) for o in outs)
             n += 1
             chk.instance('R-FSM', name, 'CSI data witness: %s' % what, ok, detail='script ESC %s -> %s' % (''.join(script), got),
